@@ -112,6 +112,7 @@ BodyTab ==
    pidu   |-> [text |-> "{\"id\": @t1 | @nope}", kind |-> "schema", root |-> "object", rtype |-> "object", uses |-> {"@t1", "@nope"}, inh |-> {}, enums |-> {}, keys |-> {"id"}, props |-> <<[key |-> "id", tt |-> "reference", ty |-> "mixed"]>>],   \* a union that names an undefined type: found only when the schema of the path variables is built
    py     |-> [text |-> "{\"y\": 1}",            kind |-> "schema", root |-> "object", rtype |-> "object",  uses |-> {}, inh |-> {}, enums |-> {}, keys |-> {"y"}, props |-> <<[key |-> "y", tt |-> "number", ty |-> "integer"]>>],
    px     |-> [text |-> "{\"x\": 1}",            kind |-> "schema", root |-> "object", rtype |-> "object",  uses |-> {}, inh |-> {}, enums |-> {}, keys |-> {"x"}, props |-> <<[key |-> "x", tt |-> "number", ty |-> "integer"]>>],
+   enml   |-> [text |-> "[\n  \"a\", /* one\n  two */\n  \"b\"\n]", kind |-> "enum", root |-> "array", rtype |-> "array", uses |-> {}, inh |-> {}, enums |-> {}, keys |-> {}, props |-> <<>>],   \* a note of two lines on a value
    en     |-> [text |-> "[1, \"a\"]",            kind |-> "enum",   root |-> "array",  rtype |-> "array",   uses |-> {}, inh |-> {}, enums |-> {}, keys |-> {}, props |-> <<>>],
    d1     |-> [text |-> "text one",              kind |-> "text",   root |-> "",       rtype |-> "",        uses |-> {}, inh |-> {}, enums |-> {}, keys |-> {}, props |-> <<>>],
    dbad   |-> [text |-> "( a list\n)",            kind |-> "textbad", root |-> "",      rtype |-> "",        uses |-> {}, inh |-> {}, enums |-> {}, keys |-> {}, props |-> <<>>],   \* a wrongly parenthesised text: the error stands on the text
